@@ -1,2 +1,3 @@
 /- All reader-only format models (imported by the generated `Gen/LayoutsR.lean` and the driver). -/
 import Iodata.Model.FmtR.GaussianLog
+import Iodata.Model.FmtR.Vasp
